@@ -79,6 +79,9 @@ Fixpoint insert (x : prod) (l : list prod) : list prod :=
   | y :: r => if before y x then y :: insert x r else x :: y :: r
   end.
 Definition sort_producers (l : list prod) : list prod := fold_right insert [] l.
+(* GetVotedProducers keeps the producers that have votes; getSortedProducers sorts them *)
+Definition sorted_voted (l : list prod) : list prod :=
+  sort_producers (filter (fun p => 0 <? fst p) l).
 
 (* ---- getRandomDposV2Producers: keys = sorted CRC keys ++ voted keys after
    the unclaimed ones; when more than [count] keys, [count] of them are drawn
